@@ -5,7 +5,7 @@ from .. import combprop
 PROP = 'C08'
 RULE = ('case = (block, configuration, input vector); exhaustive stratum: full truth table of every accepted '
         'configuration below the width/arity bound whose total input bits fit the bound (distinct by construction); '
-        'Hypothesis stratum: widths up to 128, arities up to 9, boundary-biased operands (distinct by JSON hash). '
+        'Hypothesis stratum: widths up to 128, arities up to 9, boundary-biased operands (distinct by JSON hash); stratum every_width_edge_operands: every block at a spread of widths (every width 1..140 in the thorough tier) with edge operands. '
         'Non-trivial iff the unreduced reference value differs from its reduction (complements) or an operand is '
         'at an extreme (all ones / only top bit set: the signed-comparison boundary).')
 ASSUMPTIONS = [
@@ -26,6 +26,8 @@ def strata(tier):
     return [
         {'name': 'exhaustive_truth_tables', 'kind': 'enum', 'exhaustive': True,
          'tasks': combprop.enum_tasks(L, W, bits), 'run_task': _run_task},
+        {'name': 'every_width_edge_operands', 'kind': 'enum', 'exhaustive': False,
+         'tasks': combprop.width_tasks(L, combprop.QUICK_WIDTHS if tier == 'quick' else range(1, 141)), 'run_task': combprop.make_width_task(L)},
         {'name': 'hypothesis_wide', 'kind': 'hyp', 'examples': n,
          'strategy': lambda: combprop.case_strategy(L), 'run_case': run_case},
     ]
